@@ -157,6 +157,24 @@ impl Check for C26 {
                     exp.push(e);
                 }
                 checkpoints.push((hk, exp));
+                // more cursors, taken now (after concurrent overwrites): a cursor taken on an
+                // overwritten element refers to the value op that is current on this replica
+                let o2 = observe_opts(&w.docs[r], None, false);
+                for (obj, typ) in o2.objects.iter().filter(|(_, t)| matches!(t, ObjType::List | ObjType::Text)).take(3) {
+                    let _ = typ;
+                    let Some(layout) = rf.seq_layout(&exid_str(obj)) else { continue };
+                    let vis: Vec<usize> = (0..layout.len()).filter(|k| layout[*k].visible).take(3).collect();
+                    for k in vis {
+                        let i = index_of(&layout, k);
+                        for before_mode in [false, true] {
+                            let mode = if before_mode { MoveCursor::Before } else { MoveCursor::After };
+                            if let Ok(c) = w.docs[r].get_cursor_moving(obj, i, None, mode) {
+                                cx.count("cursors_taken_later");
+                                taken.push(Taken { obj: obj.clone(), elem: layout[k].id.clone(), index: i, before_mode, cursor: c, heads: w.docs[r].get_heads() });
+                            }
+                        }
+                    }
+                }
             }
             if rng.chance(12) {
                 // overwrite the element under a cursor on a random replica (concurrent overwrites of
@@ -206,7 +224,13 @@ impl Check for C26 {
                 let Some(expect) = expected_position(&layout, &t.elem, t.before_mode) else { continue };
                 let k = layout.iter().position(|e| e.id == t.elem).unwrap();
                 let deleted = !layout[k].visible;
-                let got = d.get_cursor_position(&t.obj, &t.cursor, None);
+                let got = match catch(|| d.get_cursor_position(&t.obj, &t.cursor, None)) {
+                    Ok(g) => g,
+                    Err(p) => {
+                        cx.violation(&format!("cursor-position|panic|{}", panic_sig(&p)), format!("{label}: resolving a cursor on element {} of {} panicked: {p}", t.elem, exid_str(&t.obj)), json!({"log": tail(&log, 30)}));
+                        return;
+                    }
+                };
                 let class = if !deleted { "visible" } else if t.before_mode { "deleted_before" } else { "deleted_after" };
                 cx.count(&format!("resolved_{class}"));
                 if *label == "merged" {
